@@ -1214,6 +1214,16 @@ let srecs_count (s : string) : int =
   else List.fold_left (fun a item -> a + (match String.index_opt item '*' with
       | Some i -> int_of_string (String.sub item 0 i) | None -> 1)) 0 (split_on '+' s)
 let chs_show ((fmt, recs) : z * z list list) : string = z_to_string fmt ^ "/" ^ srecs_show recs
+let chs_queries ((fmt, recs) : z * z list list) : string =
+  let take3 = List.filteri (fun i _ -> i < 3) recs in
+  let extra =
+    if z_to_int fmt = 0 then List.map (fun r -> z_to_int (List.hd r)) take3
+    else List.concat_map (fun r -> let f = z_to_int (List.nth r 0) and nl = z_to_int (List.nth r 1) in [f; f + nl]) take3 in
+  let sids = List.filter (fun s -> s <= 65535) ([0; 1; 5; 100; 390; 391; 1000; 65535] @ extra) in
+  let gids = [0; 1; 2; 3; 4; 255; 256; 257; 65535] in
+  let show = function Some v -> z_to_string v | None -> "n" in
+  String.concat "," (List.map (fun g -> show (charset_id_for_glyph (fmt, recs) (zi g))) gids) ^ "/" ^
+  String.concat "," (List.map (fun s -> show (charset_sid_to_gid (fmt, recs) (zi s))) sids)
 let fds_show (f : fdselect) : string =
   z_to_string f.fs_fmt ^ "/" ^ srecs_show f.fs_recs ^ "/" ^ z_to_string f.fs_sentinel
 let set_model (kind : string) (n : z) (d : z list) : string =
@@ -1221,8 +1231,10 @@ let set_model (kind : string) (n : z) (d : z list) : string =
   match kind with
   | "cvt" -> pwp (fst_o (cvt_read c n)) join (fun t -> Ok (cvt_write t))
                (fun b -> out_s join (fst_o (cvt_read (table_ctxt b) (zi (List.length b)))))
-  | "chs" -> pwp (fst_o (charset_read c n)) chs_show (fun t -> Ok (charset_write t))
-               (fun b -> out_s chs_show (fst_o (charset_read (table_ctxt b) n)))
+  | "chs" ->
+    let base = pwp (fst_o (charset_read c n)) chs_show (fun t -> Ok (charset_write t))
+        (fun b -> out_s chs_show (fst_o (charset_read (table_ctxt b) n))) in
+    (match charset_read c n with Ok (v, _) -> base ^ ";q=" ^ chs_queries v | _ -> base)
   | "fds" -> pwp (fst_o (fdselect_read c n)) fds_show fdselect_write
                (fun b -> out_s fds_show (fst_o (fdselect_read (table_ctxt b) n)))
   | "enc" -> pwp (fst_o (encoding_read c)) chs_show encoding_write
@@ -1239,7 +1251,9 @@ let setw_model (kind : string) (n : z) (v : string) : string =
     (match split_on '/' v with
      | [fmt; rs] ->
        wr (Ok (charset_write (z_of_string fmt, srecs_parse rs)))
-         (fun b -> out_s chs_show (fst_o (charset_read (table_ctxt b) n)))
+         (fun b -> match charset_read (table_ctxt b) n with
+            | Ok (v, _) -> "ok:" ^ chs_show v ^ ";q=" ^ chs_queries v
+            | o -> out_s chs_show (fst_o o))
      | _ -> failwith "chs value")
   | "fds" ->
     (match split_on '/' v with
@@ -1259,6 +1273,8 @@ let rec ref_covers (recs : z list list) (covered : int) (n : int) : bool =
 let judge_set (ip : (string * string) list) : (string * string) option =
   let get k = try Some (List.assoc k ip) with Not_found -> None in
   match get "r", get "w", get "r2" with
+  | _ when (match get "q" with Some q -> String.contains q 'P' | None -> false) ->
+    Some ("panic", "a charset query (id_for_glyph / sid_to_gid) panicked: " ^ (match get "q" with Some q -> q | None -> ""))
   | Some r, Some w, _ when starts_with "ok:" r && starts_with "err:" w ->
     Some ("refusal", "a parsed value was refused by its writer: " ^ w)
   | Some r, Some _, Some r2 when starts_with "ok:" r && r2 <> r ->
@@ -1273,6 +1289,9 @@ let judge_setw (kind : string) (n : int) (v : string) (ip : (string * string) li
     | _, Some r when r <> "ok:" ^ shown -> Some ("roundtrip", "read(write(v)) <> v: " ^ r)
     | _, None -> Some ("roundtrip", "nothing read back")
     | _ -> None in
+  if (match get "q" with Some q -> String.contains q 'P' | None -> false) then
+    Some ("panic", "a charset query (id_for_glyph / sid_to_gid) panicked: " ^ (match get "q" with Some q -> q | None -> ""))
+  else
   match kind with
   | "cvt" -> expect_ok (if v = "-" then "-" else v)
   | "chs" ->
